@@ -39,7 +39,7 @@ CLAIMED = {
     ),
     "C18": (
         "bounded symbolic exploration of checkout/stage/status on real work trees (ksym): tree contents, entry kinds, edit sequences and targets are solver-forked; oracle = directory scan and reference three-way comparison",
-        "For every tree over {f, d/g, a non-UTF-8 name, d/h} with entries absent / file / executable / symlink / empty / longer file: reset --hard materialises exactly the tree (contents, symlink targets, executable bits), status is clean, and staging everything reproduces the tree id; for every pair of trees over three of those paths a switch leaves exactly the second tree with clean status and matching index (mode-only, type, add/remove changes); after one or two edits on a target path from {modify same/other size, chmod, delete, add untracked, replace by symlink, stage, unstage, rm --cached} (each with a distinct timestamp) status' staged/unstaged/untracked sets equal the reference comparison of HEAD, index and a directory scan. One genuine defect was repaired (889f888); one is a known finding (executable-bit-only changes are not reported as unstaged). File<->directory replacements, large files, line-ending conversion and agreement with the git binary are not covered.",
+        "For every tree over {f, d/g, a non-UTF-8 name, d/h} with entries absent / file / executable / symlink / empty / longer file: reset --hard materialises exactly the tree (contents, symlink targets, executable bits), status is clean, and staging everything reproduces the tree id; for every pair of trees over three of those paths a switch leaves exactly the second tree with clean status and matching index (mode-only, type, add/remove changes); after one or two edits on a target path from {modify same/other size, chmod, delete, add untracked, replace by symlink, stage, unstage, rm --cached} (each with a distinct timestamp) status' staged/unstaged/untracked sets equal the reference comparison of HEAD, index and a directory scan. Two genuine defects were repaired (889f888 symlinks reported untracked; da149e3 executable-bit-only changes not reported). File<->directory replacements, large files, line-ending conversion and agreement with the git binary are not covered.",
         "Trusted: z3 (forking), ksym, the kernel file system on /dev/shm; edits are given distinct timestamps (no racy-git ambiguity).",
     ),
     "C19": (
